@@ -78,6 +78,10 @@ def handleComp : P String := do
           else match (nn.zip ibfs.2).findSome? (fun p => (checkBfs (bfsReach p.1) p.1 p.2).map fun c => s!"{c}@{p.1}") with
                | some c => c | none => "1"),
         ("ok.eq", if k == 0 then "1" else verdict false ieq (checkEqualSize nn k)) ]
-      pure (pFields "m." m ++ "|" ++ pFields "s." sf)
+      -- exact order of every BFS list (F24: levels in name order)
+      let order := match (nn.zip ibfs.2).find? (fun p => match s.breadthFirstSearchOrdered p.1 with | .ok l => l != p.2 | _ => true) with
+        | some p => s!"order-differs@{p.1}"
+        | none => "1"
+      pure (pFields "m." (m ++ [("agree.bfsorder", order)]) ++ "|" ++ pFields "s." sf)
 
 end Graphrs
